@@ -2,13 +2,14 @@ import PbBss.Model.Bf
 import PbBss.Proofs.RealInst
 import PbBss.Proofs.Mvdr
 import PbBss.Proofs.Gev
+import Mathlib.LinearAlgebra.Matrix.Rank
 /-! Helper lemmas for C11 / C12: bridge from the executable `Bf` models (at `α := ℝ`, `β := ℂ`) to Mathlib's
 `Matrix` API, and the algebra behind the property theorems. -/
 open PbBss PbBss.Bf Matrix
 open scoped ComplexOrder
 namespace PbBss.BfProof
 
-variable {D K : Nat}
+variable {D K n : Nat}
 
 /-! ### bridge: model folds = Mathlib operations -/
 theorem cj_eq (z : ℂ) : cj ℝ z = star z := rfl
@@ -347,5 +348,385 @@ theorem wmwf_exact (N : Matrix (Fin D) (Fin D) ℂ) (hN : N.PosDef) (a u : Fin D
     funext i
     simp only [mulVec, dotProduct, Matrix.mul_apply]
   rw [this, ← Matrix.mul_assoc, Matrix.mul_nonsing_inv _ hdet, Matrix.one_mul]
+
+
+/-- `tr(Φnn⁻¹ Φxx)` is real for Hermitian `Φnn`, `Φxx` -/
+theorem trace_solve_im (N X phi : Matrix (Fin D) (Fin D) ℂ) (hN : N.IsHermitian) (hNu : IsUnit N)
+    (hX : X.IsHermitian) (hphi : N * phi = X) : (Bf.trace (phi : Fin D → Fin D → ℂ)).im = 0 := by
+  have hdet := (Matrix.isUnit_iff_isUnit_det N).mp hNu
+  have hp : phi = N⁻¹ * X := by
+    apply mul_left_cancel_of_isUnit hNu
+    rw [hphi, ← Matrix.mul_assoc, Matrix.mul_nonsing_inv _ hdet, Matrix.one_mul]
+  have hstar : star (Matrix.trace phi) = Matrix.trace phi := by
+    rw [← trace_conjTranspose, hp, conjTranspose_mul, hX.eq, hN.inv.eq, trace_mul_comm]
+  rw [trace_eq]
+  have := congrArg Complex.im hstar
+  simp only [RCLike.star_def, Complex.conj_im] at this
+  linarith
+
+/-- the model-level fact behind `wmwf_zero_eq_souden` -/
+theorem wmwf_zero_eq_souden_of_real (phi : Matrix (Fin D) (Fin D) ℂ) (ref : Fin D) (eps : ℝ)
+    (him : (Bf.trace (phi : Fin D → Fin D → ℂ)).im = 0) (heps : eps ≤ (Bf.trace (phi : Fin D → Fin D → ℂ)).re) :
+    wmwf (0 : ℝ) phi ref = souden phi ref eps := by
+  funext d
+  unfold wmwf wmwfFilter souden soudenMat
+  simp only [cx_re, cx_ofReal, max_eq_left heps]
+  congr 1
+  apply Complex.ext <;> simp [him]
+
+/-- `souden` is invariant under a positive scaling of `phi` (guards: both traces stay above `eps`) -/
+theorem souden_smul (phi : Matrix (Fin D) (Fin D) ℂ) (ref : Fin D) (eps c : ℝ) (hc : 0 < c)
+    (heps : eps ≤ (Bf.trace (phi : Fin D → Fin D → ℂ)).re)
+    (heps' : eps ≤ c * (Bf.trace (phi : Fin D → Fin D → ℂ)).re)
+    (hpos : 0 < (Bf.trace (phi : Fin D → Fin D → ℂ)).re) :
+    souden (((c : ℂ) • phi : Matrix (Fin D) (Fin D) ℂ)) ref eps = souden phi ref eps := by
+  funext d
+  unfold souden soudenMat
+  simp only [cx_re, cx_ofReal]
+  have htr : Bf.trace (((c : ℂ) • phi : Matrix (Fin D) (Fin D) ℂ) : Fin D → Fin D → ℂ) =
+      (c : ℂ) * Bf.trace (phi : Fin D → Fin D → ℂ) := by
+    rw [trace_eq, trace_eq, trace_smul, smul_eq_mul]
+  rw [htr]
+  have hre : ((c : ℂ) * Bf.trace (phi : Fin D → Fin D → ℂ)).re = c * (Bf.trace (phi : Fin D → Fin D → ℂ)).re := by
+    simp
+  rw [hre, max_eq_left heps, max_eq_left heps', Matrix.smul_apply, smul_eq_mul]
+  have h1 : ((Bf.trace (phi : Fin D → Fin D → ℂ)).re : ℂ) ≠ 0 := by exact_mod_cast hpos.ne'
+  have h2 : (c : ℂ) ≠ 0 := by exact_mod_cast hc.ne'
+  push_cast
+  field_simp
+
+
+/-! ### GEV / PCA -/
+/-- quadratic form of a column of `V` = diagonal entry of `Vᴴ P V` -/
+theorem quad_col (V P : Matrix (Fin D) (Fin D) ℂ) (k : Fin D) :
+    star (fun d => V d k) ⬝ᵥ P *ᵥ (fun d => V d k) = (Vᴴ * P * V) k k := by
+  simp only [dotProduct, mulVec, Matrix.mul_apply, conjTranspose_apply, Pi.star_apply, Finset.mul_sum,
+    Finset.sum_mul]
+  rw [Finset.sum_comm]
+  exact Finset.sum_congr rfl fun x _ => Finset.sum_congr rfl fun y _ => by ring
+
+theorem isUnit_of_contract (V P : Matrix (Fin D) (Fin D) ℂ) (hN : Vᴴ * P * V = 1) : IsUnit V :=
+  (Matrix.isUnit_iff_isUnit_det V).mpr (Matrix.isUnit_det_of_left_inverse hN)
+
+/-- the selected generalised eigenvector attains `λ_max` with unit noise power -/
+theorem gev_quotient (Pxx Pnn V : Matrix (Fin (n+1)) (Fin (n+1)) ℂ) (l : Fin (n+1) → ℝ)
+    (hN : Vᴴ * Pnn * V = 1) (hX : Vᴴ * Pxx * V = diagonal (fun i => (l i : ℂ))) :
+    star (gevSelect l V) ⬝ᵥ Pxx *ᵥ gevSelect l V = (l (vargmax l) : ℂ) ∧
+    star (gevSelect l V) ⬝ᵥ Pnn *ᵥ gevSelect l V = 1 := by
+  unfold gevSelect
+  constructor
+  · rw [quad_col, hX, diagonal_apply_eq]
+  · rw [quad_col, hN, one_apply_eq]
+
+theorem gev_max (Pxx Pnn V : Matrix (Fin (n+1)) (Fin (n+1)) ℂ) (l : Fin (n+1) → ℝ)
+    (hN : Vᴴ * Pnn * V = 1) (hX : Vᴴ * Pxx * V = diagonal (fun i => (l i : ℂ))) (v : Fin (n+1) → ℂ) :
+    (star v ⬝ᵥ Pxx *ᵥ v).re ≤ l (vargmax l) * (star v ⬝ᵥ Pnn *ᵥ v).re :=
+  gev_rayleigh_le Pxx Pnn V l (isUnit_of_contract V Pnn hN) hN hX _ (fun i => vargmax_ge l i) v
+
+/-- from the contract: `Pxx v_k = λ_k Pnn v_k` -/
+theorem geig_of_contract (Pxx Pnn V : Matrix (Fin D) (Fin D) ℂ) (l : Fin D → ℝ)
+    (hN : Vᴴ * Pnn * V = 1) (hX : Vᴴ * Pxx * V = diagonal (fun i => (l i : ℂ))) (k : Fin D) :
+    Pxx *ᵥ (fun d => V d k) = (l k : ℂ) • (Pnn *ᵥ fun d => V d k) := by
+  have hV := isUnit_of_contract V Pnn hN
+  have hVH : IsUnit Vᴴ := by
+    rw [Matrix.isUnit_iff_isUnit_det, det_conjTranspose]
+    exact ((Matrix.isUnit_iff_isUnit_det V).mp hV).star
+  have hmat : Pxx * V = Pnn * V * diagonal (fun i => (l i : ℂ)) := by
+    apply mul_left_cancel_of_isUnit hVH
+    rw [← Matrix.mul_assoc, hX, ← Matrix.mul_assoc, ← Matrix.mul_assoc, hN, Matrix.one_mul]
+  funext d
+  have := congrFun (congrFun hmat d) k
+  rw [Matrix.mul_apply, Matrix.mul_diagonal] at this
+  simp only [mulVec, dotProduct, Pi.smul_apply, smul_eq_mul]
+  rw [this, Matrix.mul_apply, mul_comm]
+
+
+/-- PCA: from the `np.linalg.eigh` contract (`U` unitary, `Uᴴ Φ U = diag λ`, ascending) the last column attains
+`λ_last` with unit norm and no vector has a larger Rayleigh quotient `vᴴΦv / vᴴv` -/
+theorem pca_max (P U : Matrix (Fin (n+1)) (Fin (n+1)) ℂ) (l : Fin (n+1) → ℝ) (hU : Uᴴ * U = 1)
+    (hX : Uᴴ * P * U = diagonal (fun i => (l i : ℂ))) (hl : Monotone l) :
+    star (pcaSelect l U).1 ⬝ᵥ P *ᵥ (pcaSelect l U).1 = ((pcaSelect l U).2 : ℂ) ∧
+    star (pcaSelect l U).1 ⬝ᵥ (pcaSelect l U).1 = 1 ∧
+    ∀ v : Fin (n+1) → ℂ, (star v ⬝ᵥ P *ᵥ v).re ≤ (pcaSelect l U).2 * (star v ⬝ᵥ v).re := by
+  have hN : Uᴴ * (1 : Matrix (Fin (n+1)) (Fin (n+1)) ℂ) * U = 1 := by rw [Matrix.mul_one, hU]
+  unfold pcaSelect
+  refine ⟨?_, ?_, fun v => ?_⟩
+  · simp only; rw [quad_col, hX, diagonal_apply_eq]
+  · have := quad_col U 1 (Fin.last n)
+    rw [one_mulVec, hN, one_apply_eq] at this
+    exact this
+  · have := gev_rayleigh_le P 1 U l (isUnit_of_contract U 1 hN) hN hX (l (Fin.last n))
+      (fun i => hl (Fin.le_last i)) v
+    rwa [one_mulVec] at this
+
+theorem vnorm_eq (v : Fin D → ℂ) : vnorm (α := ℝ) v = Real.sqrt ((star v ⬝ᵥ v).re) := by
+  unfold vnorm
+  rw [vsum_eq_sum]
+  simp only [transc_sqrt_real, cx_re, cx_im]
+  congr 1
+  simp only [dotProduct, Complex.re_sum, Pi.star_apply]
+  refine Finset.sum_congr rfl fun i _ => ?_
+  simp [Complex.mul_re]
+
+/-- the scaling options of `get_pca_vector` applied to a unit-norm eigenvector; `csqrt` (NumPy's complex square
+root) is only used on the trace, which is a non-negative real for a positive semidefinite matrix -/
+theorem pca_scalings (csqrt : ℂ → ℂ) (hcs : ∀ x : ℝ, 0 ≤ x → csqrt (x : ℂ) = ((Real.sqrt x : ℝ) : ℂ))
+    (P : Matrix (Fin D) (Fin D) ℂ) (hP : P.PosSemidef) (v : Fin D → ℂ) (hv : star v ⬝ᵥ v = 1) (lam : ℝ) :
+    pcaVector csqrt .none P v lam = v ∧
+    pcaVector csqrt .trace P v lam = ((Real.sqrt (Matrix.trace P).re : ℝ) : ℂ) • v ∧
+    pcaVector csqrt .eigenvalue P v lam = (lam : ℂ) • v ∧
+    0 ≤ (Matrix.trace P).re ∧ (P ≠ 0 → 0 < Real.sqrt (Matrix.trace P).re) := by
+  have hnorm : vnorm (α := ℝ) v = 1 := by rw [vnorm_eq, hv]; simp
+  have htr0 : 0 ≤ Matrix.trace P := hP.trace_nonneg
+  have htr_re : 0 ≤ (Matrix.trace P).re := (Complex.nonneg_iff.mp htr0).1
+  have htr_im : (Matrix.trace P).im = 0 := (Complex.nonneg_iff.mp htr0).2.symm
+  have htr : Bf.trace (P : Fin D → Fin D → ℂ) = (((Matrix.trace P).re : ℝ) : ℂ) := by
+    rw [trace_eq]; apply Complex.ext <;> simp [htr_im]
+  refine ⟨rfl, ?_, ?_, htr_re, fun hne => ?_⟩
+  · funext d
+    simp only [pcaVector, hnorm, htr, hcs _ htr_re, cx_ofReal, Pi.smul_apply, smul_eq_mul]
+    simp [mul_comm]
+  · funext d
+    simp only [pcaVector, hnorm, cx_ofReal, Pi.smul_apply, smul_eq_mul]
+    simp [mul_comm]
+  · apply Real.sqrt_pos.mpr
+    rcases lt_or_eq_of_le htr_re with h | h
+    · exact h
+    · exfalso
+      apply hne
+      rw [← hP.trace_eq_zero_iff]
+      apply Complex.ext <;> simp [← h, htr_im]
+
+
+/-- the largest eigenvalue of a non-zero positive semidefinite matrix is positive -/
+theorem pca_lambda_pos (P U : Matrix (Fin (n+1)) (Fin (n+1)) ℂ) (l : Fin (n+1) → ℝ) (hU : Uᴴ * U = 1)
+    (hX : Uᴴ * P * U = diagonal (fun i => (l i : ℂ))) (hl : Monotone l) (hP : P.PosSemidef) (hne : P ≠ 0) :
+    0 < (pcaSelect l U).2 := by
+  unfold pcaSelect
+  simp only
+  by_contra hcon
+  have hle : ∀ i, l i ≤ 0 := fun i => le_trans (hl (Fin.le_last i)) (not_lt.mp hcon)
+  have hUU : U * Uᴴ = 1 := mul_eq_one_comm.mp hU
+  have htr : Matrix.trace P = ((∑ i, l i : ℝ) : ℂ) := by
+    have h1 : Matrix.trace (Uᴴ * P * U) = Matrix.trace P := by
+      rw [Matrix.trace_mul_comm, ← Matrix.mul_assoc, hUU, Matrix.one_mul]
+    rw [← h1, hX, trace_diagonal]; push_cast; rfl
+  have h0 : 0 ≤ Matrix.trace P := hP.trace_nonneg
+  have hsum : (∑ i, l i) ≤ 0 := Finset.sum_nonpos fun i _ => hle i
+  have hz : Matrix.trace P = 0 := by
+    rw [htr] at h0 ⊢
+    have : (0 : ℝ) ≤ ∑ i, l i := by exact_mod_cast h0
+    have : (∑ i, l i) = 0 := le_antisymm hsum this
+    rw [this]; simp
+  exact hne (hP.trace_eq_zero_iff.mp hz)
+
+/-! ### rank-one estimates -/
+theorem outer_eq (a : Fin D → ℂ) : Matrix.of (outer ℝ a) = vecMulVec a (star a) := by
+  ext i j; simp [outer, vecMulVec_apply]
+
+theorem trace_outer (a : Fin D → ℂ) : Bf.trace (outer ℝ a) = star a ⬝ᵥ a := by
+  rw [show Bf.trace (outer ℝ a) = Bf.trace (Matrix.of (outer ℝ a) : Fin D → Fin D → ℂ) from rfl, outer_eq, trace_eq]
+  simp only [Matrix.trace, diag_apply, vecMulVec_apply, dotProduct, mul_comm]
+
+theorem rankOne_eq (P : Matrix (Fin D) (Fin D) ℂ) (a : Fin D → ℂ) :
+    Matrix.of (rankOne ℝ P a) = (Matrix.trace P / (star a ⬝ᵥ a)) • vecMulVec a (star a) := by
+  ext i j
+  simp only [rankOne, of_apply, Matrix.smul_apply, smul_eq_mul, trace_outer, trace_eq, ← outer_eq]
+
+theorem norm_sq_pos (a : Fin D → ℂ) (ha : a ≠ 0) : star a ⬝ᵥ a ≠ 0 := by
+  intro h
+  exact ha (dotProduct_star_self_eq_zero.mp h)
+
+theorem norm_sq_real (a : Fin D → ℂ) : star (star a ⬝ᵥ a) = star a ⬝ᵥ a := by
+  rw [← star_dotProduct]
+
+/-- the rank-one estimate is Hermitian (for a real trace), of rank ≤ 1 and has the trace of the input -/
+theorem rank1_props (P : Matrix (Fin D) (Fin D) ℂ) (a : Fin D → ℂ) (ha : a ≠ 0) :
+    ((Matrix.trace P).im = 0 → (Matrix.of (rankOne ℝ P a)).IsHermitian) ∧
+    (Matrix.of (rankOne ℝ P a)).rank ≤ 1 ∧
+    Matrix.trace (Matrix.of (rankOne ℝ P a)) = Matrix.trace P := by
+  rw [rankOne_eq]
+  refine ⟨fun him => ?_, ?_, ?_⟩
+  · have hs : star (Matrix.trace P / (star a ⬝ᵥ a)) = Matrix.trace P / (star a ⬝ᵥ a) := by
+      rw [star_div₀, norm_sq_real]
+      congr 1
+      apply Complex.ext <;> simp [him]
+    unfold Matrix.IsHermitian
+    rw [conjTranspose_smul, hs, conjTranspose_vecMulVec, star_star]
+  · calc ((Matrix.trace P / (star a ⬝ᵥ a)) • vecMulVec a (star a)).rank
+        ≤ (vecMulVec a (star a)).rank := by
+          rw [← Matrix.mul_one ((Matrix.trace P / (star a ⬝ᵥ a)) • vecMulVec a (star a)), Matrix.smul_mul,
+            ← Matrix.mul_smul]
+          exact Matrix.rank_mul_le_left _ _
+      _ ≤ 1 := Matrix.rank_vecMulVec_le _ _
+  · rw [trace_smul, smul_eq_mul]
+    have : Matrix.trace (vecMulVec a (star a)) = star a ⬝ᵥ a := by
+      simp only [Matrix.trace, diag_apply, vecMulVec_apply, dotProduct, mul_comm]
+    rw [this, div_mul_cancel₀ _ (norm_sq_pos a ha)]
+
+/-- exactly rank-one input `σ b bᴴ` and an estimate `a` of the steering vector parallel to `b`: the input is recovered -/
+theorem rank1_recovers (b : Fin D → ℂ) (hb : b ≠ 0) (σ c : ℂ) (hc : c ≠ 0) :
+    Matrix.of (rankOne ℝ (σ • vecMulVec b (star b)) (c • b)) = σ • vecMulVec b (star b) := by
+  rw [rankOne_eq]
+  have hbb := norm_sq_pos b hb
+  have htr : Matrix.trace (σ • vecMulVec b (star b)) = σ * (star b ⬝ᵥ b) := by
+    rw [trace_smul, smul_eq_mul]
+    congr 1
+    simp only [Matrix.trace, diag_apply, vecMulVec_apply, dotProduct, mul_comm]
+  have hsc : star c ≠ 0 := star_ne_zero.mpr hc
+  ext i j
+  simp only [htr, Matrix.smul_apply, vecMulVec_apply, Pi.smul_apply, Pi.star_apply, smul_eq_mul, star_smul,
+    smul_dotProduct, dotProduct_smul]
+  field_simp
+
+/-- PCA: an eigenvector of `σ b bᴴ` for a non-zero eigenvalue is parallel to `b` -/
+theorem pca_top_parallel (b v : Fin D → ℂ) (σ lam : ℂ) (hlam : lam ≠ 0)
+    (hv : (σ • vecMulVec b (star b)) *ᵥ v = lam • v) : v = (σ * (star b ⬝ᵥ v) / lam) • b := by
+  have h1 : (σ • vecMulVec b (star b)) *ᵥ v = (σ * (star b ⬝ᵥ v)) • b := by
+    funext i
+    simp only [Pi.smul_apply, mulVec, Matrix.smul_apply, vecMulVec_apply, smul_eq_mul, dotProduct, Finset.mul_sum,
+      Finset.sum_mul, Pi.star_apply]
+    exact Finset.sum_congr rfl fun k _ => by ring
+  rw [h1] at hv
+  funext i
+  have := congrFun hv i
+  simp only [Pi.smul_apply, smul_eq_mul] at this ⊢
+  field_simp
+  linear_combination -this
+
+/-- GEV: for `Φxx = σ b bᴴ` the estimated transfer function `Φnn w` of a generalised eigenvector with non-zero
+eigenvalue is parallel to `b` -/
+theorem gev_atf_parallel (N : Matrix (Fin D) (Fin D) ℂ) (b w : Fin D → ℂ) (σ lam : ℂ) (hlam : lam ≠ 0)
+    (hw : (σ • vecMulVec b (star b)) *ᵥ w = lam • (N *ᵥ w)) : gevAtf N w = (σ * (star b ⬝ᵥ w) / lam) • b := by
+  have h1 : (σ • vecMulVec b (star b)) *ᵥ w = (σ * (star b ⬝ᵥ w)) • b := by
+    funext i
+    simp only [Pi.smul_apply, mulVec, Matrix.smul_apply, vecMulVec_apply, smul_eq_mul, dotProduct, Finset.mul_sum,
+      Finset.sum_mul, Pi.star_apply]
+    exact Finset.sum_congr rfl fun k _ => by ring
+  rw [h1] at hw
+  unfold gevAtf
+  rw [matVec_eq]
+  funext i
+  have := congrFun hw i
+  simp only [Pi.smul_apply, smul_eq_mul] at this ⊢
+  field_simp
+  linear_combination -this
+
+
+/-! ### blind analytic normalisation -/
+theorem cabs_eq (z : ℂ) : cabs (α := ℝ) z = ‖z‖ := by
+  unfold cabs
+  simp only [transc_sqrt_real, cx_re, cx_im]
+  rw [Complex.norm_def, Complex.normSq_apply]
+
+theorem isZero_iff (z : ℂ) : isZero (α := ℝ) z = true ↔ z = 0 := by
+  unfold isZero
+  simp only [cx_re, cx_im, Bool.and_eq_true, Bool.not_eq_eq_eq_not, Bool.not_true, decide_eq_false_iff_not, not_lt]
+  constructor
+  · rintro ⟨⟨⟨h1, h2⟩, h3⟩, h4⟩
+    exact Complex.ext (le_antisymm h2 h1) (le_antisymm h4 h3)
+  · rintro rfl; simp
+
+theorem ban_nom_eq (w : Fin D → ℂ) (N : Matrix (Fin D) (Fin D) ℂ) :
+    (vsum fun a => vsum fun b => vsum fun c => CxOps.conj (α := ℝ) (w a) * N a b * N b c * w c) =
+      star w ⬝ᵥ N *ᵥ (N *ᵥ w) := by
+  simp only [vsum_eq_sum, cx_conj, dotProduct, mulVec, Pi.star_apply, Finset.mul_sum]
+  refine Finset.sum_congr rfl fun a _ => Finset.sum_congr rfl fun b _ => Finset.sum_congr rfl fun c _ => ?_
+  simp only [RCLike.star_def]; ring
+
+theorem ban_den_eq (w : Fin D → ℂ) (N : Matrix (Fin D) (Fin D) ℂ) :
+    (vsum fun a => vsum fun b => CxOps.conj (α := ℝ) (w a) * N a b * w b) = star w ⬝ᵥ N *ᵥ w := by
+  simp only [vsum_eq_sum, cx_conj, dotProduct, mulVec, Pi.star_apply, Finset.mul_sum]
+  refine Finset.sum_congr rfl fun a _ => Finset.sum_congr rfl fun b _ => ?_
+  simp only [RCLike.star_def]; ring
+
+/-- closed form of the gain for any `csqrt` with `|csqrt z| = sqrt |z|`; Lean's `x / 0 = 0` coincides with the
+code's "`0` where the denominator is `0`" -/
+theorem banFactor_eq (csqrt : ℂ → ℂ) (hcs : ∀ z, ‖csqrt z‖ = Real.sqrt ‖z‖) (w : Fin D → ℂ)
+    (N : Matrix (Fin D) (Fin D) ℂ) :
+    banFactor (α := ℝ) csqrt w N = Real.sqrt ‖star w ⬝ᵥ N *ᵥ (N *ᵥ w)‖ / ‖star w ⬝ᵥ N *ᵥ w‖ := by
+  unfold banFactor
+  simp only [ban_nom_eq, ban_den_eq, cabs_eq]
+  set d := star w ⬝ᵥ N *ᵥ w
+  have hdd : ‖csqrt (d * CxOps.conj (α := ℝ) d)‖ = ‖d‖ := by
+    rw [hcs, cx_conj, norm_mul, RCLike.norm_conj, Real.sqrt_mul_self (norm_nonneg d)]
+  by_cases hz : isZero (α := ℝ) (csqrt (d * CxOps.conj (α := ℝ) d)) = true
+  · rw [if_pos hz]
+    have h0 : csqrt (d * CxOps.conj (α := ℝ) d) = 0 := (isZero_iff _).mp hz
+    rw [h0, norm_zero] at hdd
+    rw [← hdd]; simp
+  · rw [if_neg hz, norm_div, hcs, hdd]
+
+theorem ban_eq_smul (csqrt : ℂ → ℂ) (w : Fin D → ℂ) (N : Matrix (Fin D) (Fin D) ℂ) :
+    ban (α := ℝ) csqrt w N = ((banFactor (α := ℝ) csqrt w N : ℝ) : ℂ) • w := by
+  funext d
+  simp [ban, mul_comm]
+
+/-- Hermitian positive definite `Φnn`, `w ≠ 0`: the gain is the positive real `sqrt(wᴴΦΦw) / (wᴴΦw)` -/
+theorem banFactor_pos (csqrt : ℂ → ℂ) (hcs : ∀ z, ‖csqrt z‖ = Real.sqrt ‖z‖) (w : Fin D → ℂ)
+    (N : Matrix (Fin D) (Fin D) ℂ) (hN : N.PosDef) (hw : w ≠ 0) :
+    banFactor (α := ℝ) csqrt w N = Real.sqrt (star w ⬝ᵥ N *ᵥ (N *ᵥ w)).re / (star w ⬝ᵥ N *ᵥ w).re ∧
+    0 < banFactor (α := ℝ) csqrt w N := by
+  have hNw : N *ᵥ w ≠ 0 := by
+    intro h
+    have := hN.re_dotProduct_pos hw
+    rw [h] at this; simp at this
+  have hnom : star w ⬝ᵥ N *ᵥ (N *ᵥ w) = star (N *ᵥ w) ⬝ᵥ (N *ᵥ w) := (herm_swap N hN.1 w (N *ᵥ w)).symm
+  have hnom0 : 0 < star (N *ᵥ w) ⬝ᵥ (N *ᵥ w) := by
+    have := (Matrix.PosDef.one (n := Fin D) (R := ℂ)).dotProduct_mulVec_pos hNw
+    rwa [one_mulVec] at this
+  have hd0 : 0 < star w ⬝ᵥ N *ᵥ w := hN.dotProduct_mulVec_pos hw
+  have e1 : ‖star w ⬝ᵥ N *ᵥ (N *ᵥ w)‖ = (star w ⬝ᵥ N *ᵥ (N *ᵥ w)).re := by
+    rw [hnom]
+    have h := Complex.pos_iff.mp hnom0
+    rw [← Complex.abs_re_eq_norm.mpr h.2.symm, abs_of_pos h.1]
+  have e2 : ‖star w ⬝ᵥ N *ᵥ w‖ = (star w ⬝ᵥ N *ᵥ w).re := by
+    have h := Complex.pos_iff.mp hd0
+    rw [← Complex.abs_re_eq_norm.mpr h.2.symm, abs_of_pos h.1]
+  rw [banFactor_eq csqrt hcs, e1, e2]
+  refine ⟨rfl, div_pos (Real.sqrt_pos.mpr ?_) (Complex.pos_iff.mp hd0).1⟩
+  rw [hnom]; exact (Complex.pos_iff.mp hnom0).1
+
+/-- the result depends on the input vector's scale only through its phase: `ban(c w) = (c/|c|) ban(w)` -/
+theorem ban_smul (csqrt : ℂ → ℂ) (hcs : ∀ z, ‖csqrt z‖ = Real.sqrt ‖z‖) (w : Fin D → ℂ)
+    (N : Matrix (Fin D) (Fin D) ℂ) (c : ℂ) (hc : c ≠ 0) :
+    ban (α := ℝ) csqrt (c • w) N = (c / (‖c‖ : ℂ)) • ban (α := ℝ) csqrt w N := by
+  have hcn : ‖c‖ ≠ 0 := norm_ne_zero_iff.mpr hc
+  have hf : banFactor (α := ℝ) csqrt (c • w) N = banFactor (α := ℝ) csqrt w N / ‖c‖ := by
+    rw [banFactor_eq csqrt hcs, banFactor_eq csqrt hcs]
+    have h1 : star (c • w) ⬝ᵥ N *ᵥ (N *ᵥ (c • w)) = (star c * c) * (star w ⬝ᵥ N *ᵥ (N *ᵥ w)) := by
+      rw [mulVec_smul, mulVec_smul, star_smul, smul_dotProduct, dotProduct_smul, smul_eq_mul, smul_eq_mul]; ring
+    have h2 : star (c • w) ⬝ᵥ N *ᵥ (c • w) = (star c * c) * (star w ⬝ᵥ N *ᵥ w) := by
+      rw [mulVec_smul, star_smul, smul_dotProduct, dotProduct_smul, smul_eq_mul, smul_eq_mul]; ring
+    have hn : ‖star c * c‖ = ‖c‖ * ‖c‖ := by rw [norm_mul, norm_star]
+    rw [h1, h2, norm_mul, norm_mul (star c * c), hn, Real.sqrt_mul (mul_nonneg (norm_nonneg c) (norm_nonneg c)),
+      Real.sqrt_mul_self (norm_nonneg c)]
+    field_simp
+  rw [ban_eq_smul, ban_eq_smul, hf, smul_smul, smul_smul]
+  congr 1
+  push_cast
+  field_simp
+
+
+/-- exactly rank-one target `σ b bᴴ`, (generalised) eigen-solver contract, column `k` with eigenvalue `≠ 0`:
+the rank-one estimate built from `Φnn v_k` is the target itself -/
+theorem rank1_recovers_of_contract (Pnn V : Matrix (Fin D) (Fin D) ℂ) (l : Fin D → ℝ) (b : Fin D → ℂ) (hb : b ≠ 0)
+    (σ : ℂ) (hN : Vᴴ * Pnn * V = 1)
+    (hX : Vᴴ * (σ • vecMulVec b (star b)) * V = diagonal (fun i => (l i : ℂ))) (k : Fin D) (hk : l k ≠ 0) :
+    Matrix.of (rankOne ℝ (σ • vecMulVec b (star b)) (gevAtf Pnn fun d => V d k)) = σ • vecMulVec b (star b) ∧
+    ∃ c : ℂ, c ≠ 0 ∧ gevAtf Pnn (fun d => V d k) = c • b := by
+  have hlk : (l k : ℂ) ≠ 0 := by exact_mod_cast hk
+  have hge := geig_of_contract (σ • vecMulVec b (star b)) Pnn V l hN hX k
+  have hpar := gev_atf_parallel Pnn b (fun d => V d k) σ (l k) hlk hge
+  have hc : σ * (star b ⬝ᵥ fun d => V d k) / (l k : ℂ) ≠ 0 := by
+    intro h0
+    rw [h0, zero_smul] at hpar
+    have h1 := quad_col V Pnn k
+    rw [hN, one_apply_eq] at h1
+    unfold gevAtf at hpar
+    rw [matVec_eq] at hpar
+    rw [hpar, dotProduct_zero] at h1
+    exact zero_ne_one h1
+  exact ⟨by rw [hpar]; exact rank1_recovers b hb σ _ hc, _, hc, hpar⟩
 
 end PbBss.BfProof
